@@ -572,6 +572,42 @@ def _direct_mass(c):
                     c["form"], c["im"], np.round(p, 6).tolist(), np.round(want, 6).tolist()))
     return None
 
+
+# --------------------------------------------------------------------------------------------------
+# both control-flow modes
+# --------------------------------------------------------------------------------------------------
+
+def _direct_modes(c):
+    """NIFTy's Python fall-backs of the control-flow primitives (nifty.re.lax._DISABLE_CONTROL_FLOW_PRIM) must
+    behave like the lax primitives: fori_loop with a non-zero lower bound, and a whole NUTS transition."""
+    import jax
+    import jax.numpy as jnp
+    from nifty.re import hmc, lax as nlax
+    outs = []
+    for eager in (True, False):
+        with Eager(eager):
+            v = nlax.fori_loop(int(c["lo"]), int(c["hi"]), lambda i, a: a * 3 + i, jnp.asarray(1, dtype=jnp.int64))
+            w = nlax.while_loop(lambda a: a < 50, lambda a: a * 2 + 1, jnp.asarray(1, dtype=jnp.int64))
+            outs.append((int(v), int(w)))
+    if outs[0] != outs[1]:
+        return ("control-flow-modes", "fori_loop(%d, %d, ...) / while_loop give %r with the Python fall-back and %r with the lax primitives" % (
+            c["lo"], c["hi"], outs[0], outs[1]))
+    spec, imm, eps = c["spec"], c["imm"], c["eps"]
+    res = []
+    for eager in (True, False):
+        s, V = make_sampler(spec, imm, eps, kind="nuts", max_tree_depth=int(c["depth"]), bias=True)
+        z = hmc.QP(position=jnp.array(c["q"], dtype=jnp.float64), momentum=jnp.array(c["p"], dtype=jnp.float64))
+        with Eager(eager):
+            t = hmc.generate_nuts_tree(initial_qp=z, key=jax.random.PRNGKey(int(c["seed"])), step_size=float(eps),
+                                       max_tree_depth=int(c["depth"]), stepper=s.stepper, potential_energy=V,
+                                       kinetic_energy=s.kinetic_energy, inverse_mass_matrix=s.inverse_mass_matrix)
+        res.append((int(t.depth), bool(t.turning), np.asarray(t.proposal_candidate.position), float(t.logweight)))
+    a, b = res
+    if a[0] != b[0] or a[1] != b[1] or np.max(np.abs(a[2] - b[2])) > 1e-12 or abs(a[3] - b[3]) > 1e-10 * max(1.0, abs(b[3])):
+        return ("control-flow-modes", "generate_nuts_tree (max_tree_depth=%d, step %.4g): Python fall-back gives depth %d, turning %s, log-weight %.10g; lax primitives give depth %d, turning %s, log-weight %.10g" % (
+            c["depth"], eps, a[0], a[1], a[3], b[0], b[1], b[3]))
+    return None
+
 # --------------------------------------------------------------------------------------------------
 # case generation
 # --------------------------------------------------------------------------------------------------
@@ -628,6 +664,10 @@ def nuts_cases(ctx):
         c = {"kind": "nuts", "spec": spec, "imm": imm, "eps": eps, "q": q, "p": p,
              "seed": int(rng.integers(0, 2 ** 31)), "depth": int(rng.integers(2, 5 if ctx.quick else 7)),
              "bias": bool(i % 2)}
+        if i % 3 == 0:
+            # small steps, deeper trees: sub-trees with 8 and more leaves are built before anything turns
+            c["eps"] = 0.0625
+            c["depth"] = 4 if ctx.quick else int(rng.integers(4, 7))
         if i % 3 == 2:
             # hard wall (potential +inf beyond q_0 = t) close to the start and a finite divergence threshold
             c["spec"] = dict(spec, bar=[q[0] + 0.25, "inf"])
@@ -925,9 +965,13 @@ class C32(C.Check):
             if f:
                 res.add_failing({"fn": "generate_n_samples", "class": f[0]}, f[1], _js(c))
         for c in ctx.corpus():
-            if c.get("kind") in ("resume_chain", "mass"):
+            if c.get("kind") in ("resume_chain", "mass", "modes"):
                 todo.append(c)
         todo += mass_cases(ctx)
+        for j in range(2 if ctx.quick else 6):
+            sp, im, _, q0, p0 = gen_common(ctx.rng(3220 + j), d=1 + j % 2)
+            todo.append({"kind": "modes", "lo": 2 + j, "hi": 6 + j, "spec": sp, "imm": im, "eps": 0.0625, "q": q0, "p": p0,
+                         "depth": 4, "seed": 77 + j})
         for k_todo, c in enumerate(todo):
             if k_todo >= n_hints and res.failing:
                 break                      # a failing input among the disagreeing cases is enough
@@ -970,7 +1014,7 @@ class C32(C.Check):
 
 def _fn_of(c):
     return {"lf": "leapfrog_step", "hmc": "generate_hmc_acc_rej", "chain": "HMCChain.generate_n_samples",
-            "nutsinv": "generate_nuts_tree", "moments": "generate_n_samples", "momentum": "sample_momentum_from_diagonal", "resume_chain": "generate_n_samples", "mass": "_Sampler.__init__"}.get(c["kind"], c["kind"])
+            "nutsinv": "generate_nuts_tree", "moments": "generate_n_samples", "momentum": "sample_momentum_from_diagonal", "resume_chain": "generate_n_samples", "mass": "_Sampler.__init__", "modes": "nifty.re.lax"}.get(c["kind"], c["kind"])
 
 
 def _js(c):
@@ -1000,6 +1044,8 @@ def direct_failure(c):
         return _direct_resume_chain(c)
     if k == "mass":
         return _direct_mass(c)
+    if k == "modes":
+        return _direct_modes(c)
     raise ValueError(k)
 
 
